@@ -12,6 +12,24 @@ exportable format, adds every truncation point and seeded random splices, and lo
 mutated file in a pooled subprocess (RLIMIT_AS, alarm) through load / load_mesh / load_scene
 / load_path, by file object and by path.  Each load is recorded as a trace (who opened what,
 closed or not, outcome class, time bucket, fd table) and validated by TLC (LoaderTrace.tla).
+
+Memory: every load runs with the address space it can still obtain limited to the allowance of
+LoaderTrace.tla (half a GiB + 1 KiB per input byte); every MemoryError raised anywhere during the
+load is counted through sys.monitoring, also the ones a loader catches (`except BaseException` in
+`_load_compressed`), so an allocation sized by a corrupted count field is a recorded observation.
+Loader.tla also model-checks MemoryProportional (length check in exact arithmetic passes, in
+wrapping arithmetic or absent is reported) and emits the symbolic value classes of a numeric field
+(n + 2^(w - v2(size)) for every width and record size, sign / width boundaries, ...).
+
+Further families (checks/c20_families.py): every numeric token of the parsed payload replaced by
+value classes with the container re-framed (GLB chunk lengths, fresh zip CRCs, binary PLY / binvox
+header + body); fixed-width binary count fields (STL face count, GLB lengths, PLY list lengths in
+hand-made flavours: either endianness, all count / index types, doubles, quads) under every bit
+flip and class; structural damage of the glTF JSON tree, accessors without bufferView, node
+cycles; the other archive containers (tar.gz, tar.bz2, bz2, zae) and a self-contained text glTF
+as seeds; multi-file assets by path (obj+mtl+png, gltf+bin) with damaged sidecars / references,
+where every file below the asset directory must be closed again; call variants (pathlib, upper
+case extension, file object at an offset, caller-opened file, loading twice, loader options).
 """
 import builtins
 import gc
@@ -30,6 +48,7 @@ import numpy as np
 from harness import tlc
 from harness.common import (NCPU, WORK, MachineryError, Verdict, import_trimesh, seed,
                             tier_from_args)
+from checks import c20_families as F
 
 PROP = "C20"
 NFIELDS = 6
@@ -42,9 +61,11 @@ LIFE_CFG = """CONSTANTS
   NFields = 4
   MaxFaults = 1
   Classes <- Classes4
+  LengthCheck = "{lc}"
 SPECIFICATION Spec
 INVARIANT HandleClosedAtEnd
 INVARIANT OutcomeOrdinary
+INVARIANT MemoryProportional
 PROPERTY Terminates
 """
 FAULT_CFG = """CONSTANTS
@@ -54,9 +75,23 @@ FAULT_CFG = """CONSTANTS
   NFields = {nf}
   MaxFaults = {mf}
   Classes <- Classes4
+  LengthCheck = "exact"
 INIT FInit
 NEXT FNext
 INVARIANT EmitFaults
+CHECK_DEADLOCK FALSE
+"""
+CLASS_CFG = """CONSTANTS
+  Entries <- Entries4
+  ClosesOnAllPaths = TRUE
+  MaxInput = 1
+  NFields = 1
+  MaxFaults = 0
+  Classes <- Classes4
+  LengthCheck = "exact"
+INIT FInit
+NEXT FNext
+INVARIANT EmitClasses
 CHECK_DEADLOCK FALSE
 """
 
@@ -236,48 +271,121 @@ def _on_alarm(signum, frame):
     raise Alarm()
 
 
-def load_once(tm, entry, by_path, ftype, data, tmpdir, idx):
+HARD_AS = 4 << 30
+MEM_BASE = 512 << 20          # the allowance applied; LoaderTrace.tla checks it is at least the bound it states
+MEM_PER_BYTE = 1024
+_memerrs = []
+
+
+def _vmsize():
+    with open("/proc/self/statm") as f:
+        return int(f.read().split()[0]) * os.sysconf("SC_PAGE_SIZE")
+
+
+def install_memory_monitor():
+    """count every MemoryError raised while a load runs, also the ones the loader swallows"""
+    mon = sys.monitoring
+    tool = None
+    for cand in (4, 3, mon.PROFILER_ID):
+        if mon.get_tool(cand) in (None, "c20"):
+            tool = cand
+            break
+    if tool is None:
+        raise RuntimeError("no free sys.monitoring tool id")
+    if mon.get_tool(tool) is None:
+        mon.use_tool_id(tool, "c20")
+
+    def on_raise(code, offset, exc):
+        if isinstance(exc, MemoryError) and not any(e is exc for e in _memerrs):
+            _memerrs.append(exc)
+    mon.register_callback(tool, mon.events.RAISE, on_raise)
+    mon.set_events(tool, mon.events.RAISE)
+
+
+def load_once(tm, job, data, tmpdir, idx):
     """Run one load; returns the trace record fields."""
-    bound = 10.0 + 1e-3 * len(data)
+    import shutil
+    from checks.c20_families import KWARGS
+    entry, by_path, ftype = job["entry"], job["bypath"], job["ftype"]
+    mode = job.get("mode", "")
+    aux = {k: bytes.fromhex(v) for k, v in (job.get("files") or {}).items()}
+    nbytes = len(data) + sum(len(v) for v in aux.values())
+    bound = 10.0 + 1e-3 * nbytes
     opened = []
+    aux_opened = []
     real_open = builtins.open
     path = None
-    if by_path:
+    jobdir = None
+    caller_fo = None
+    kwargs = dict(KWARGS[mode[3:]]) if mode.startswith("kw:") else {}
+    if "force" in kwargs and entry != "load":
+        kwargs.pop("force")
+    if by_path or aux or mode == "realfile":
+        jobdir = os.path.join(tmpdir, "j%d_%d" % (os.getpid(), idx))
+        os.makedirs(jobdir, exist_ok=True)
+        for name, b in aux.items():
+            with real_open(os.path.join(jobdir, name), "wb") as fh:
+                fh.write(b)
         ext = {"stl_ascii": "stl"}.get(ftype, ftype)
-        path = os.path.join(tmpdir, "f%d_%d.%s" % (os.getpid(), idx, ext))
+        if mode == "upper":
+            ext = ext.upper()
+        path = os.path.join(jobdir, "model." + ext)
         with real_open(path, "wb") as fh:
             fh.write(data)
+        if mode == "realfile":
+            caller_fo = real_open(path, "rb")       # opened by the caller: not the loader's to close
 
         def spy_open(file, *a, **k):
             fo = real_open(file, *a, **k)
             try:
-                if isinstance(file, (str, bytes, os.PathLike)) and os.path.abspath(os.fspath(file)) == path:
-                    opened.append(fo)
+                if isinstance(file, (str, bytes, os.PathLike)):
+                    ap = os.path.abspath(os.fsdecode(os.fspath(file)))
+                    if ap == path and by_path:
+                        opened.append(fo)
+                    elif ap.startswith(jobdir + os.sep):
+                        aux_opened.append(fo)
             except BaseException:
                 pass
             return fo
         builtins.open = spy_open
         io.open = spy_open
     gc.collect()
-    fds0 = len(os.listdir("/proc/self/fd"))
+    fds0 = set(os.listdir("/proc/self/fd"))
     fn = {"load": tm.load, "load_mesh": tm.load_mesh, "load_scene": tm.load_scene, "load_path": tm.load_path}[entry]
     outcome = "none"
     exc_name = ""
-    t0 = time.time()
-    c0 = time.process_time()
     result = None
+    del _memerrs[:]
+    allow = MEM_BASE + MEM_PER_BYTE * nbytes
+    soft = min(HARD_AS, _vmsize() + allow)
+    allow_kib = (soft - _vmsize()) // 1024
     # the bound is on CPU time (a hang is a busy loop; a starved machine must not look like one), with a
-    # generous wall-clock backstop for a loader that would block without computing
+    # generous wall-clock backstop for a loader that would block without computing; the timers re-fire so
+    # that an alarm swallowed by an `except BaseException` of a loader is not the last one
     signal.signal(signal.SIGPROF, _on_alarm)
     signal.signal(signal.SIGALRM, _on_alarm)
-    signal.setitimer(signal.ITIMER_PROF, bound)
-    signal.setitimer(signal.ITIMER_REAL, bound * 30)
+    resource.setrlimit(resource.RLIMIT_AS, (soft, HARD_AS))
+    c0 = time.process_time()
+    signal.setitimer(signal.ITIMER_PROF, bound, 1.0)
+    signal.setitimer(signal.ITIMER_REAL, bound * 30, 5.0)
     try:
         try:
             if by_path:
-                result = fn(path) if ftype not in ("stl_ascii",) else fn(path, file_type=ftype)
+                import pathlib
+                src = pathlib.Path(path) if mode == "pathlib" else path
+            elif mode == "realfile":
+                src = caller_fo
+            elif mode == "offset":
+                src = io.BytesIO(b"\x00junk\n" * 3 + data)
+                src.seek(18)
             else:
-                result = fn(io.BytesIO(data), file_type=ftype)
+                src = io.BytesIO(data)
+            # "twice": the same path again, or the same file object left where the first load left it
+            for _round in range(2 if mode == "twice" else 1):
+                if by_path:
+                    result = fn(src, **kwargs) if ftype not in ("stl_ascii",) else fn(src, file_type=ftype, **kwargs)
+                else:
+                    result = fn(src, file_type=ftype, **kwargs)
             outcome = "return"
         except Alarm:
             outcome = "timeout"
@@ -292,35 +400,54 @@ def load_once(tm, entry, by_path, ftype, data, tmpdir, idx):
     finally:
         signal.setitimer(signal.ITIMER_PROF, 0)
         signal.setitimer(signal.ITIMER_REAL, 0)
+        elapsed = time.process_time() - c0
+        resource.setrlimit(resource.RLIMIT_AS, (HARD_AS, HARD_AS))
         builtins.open = real_open
         io.open = real_open
-    elapsed = time.process_time() - c0
+    mem_attempts = len(_memerrs)
+    mem_msg = str(_memerrs[0])[:120] if _memerrs else ""
+    del _memerrs[:]
     closed = all(fo.closed for fo in opened)
-    fds1 = len(os.listdir("/proc/self/fd"))
-    fd_leak = fds1 > fds0 and not closed      # result still referenced here: an fd held by it is a leak of the loader
+    # result still referenced here: a descriptor held by it is a leak of the loader
+    fds1 = set(os.listdir("/proc/self/fd"))
+    main_fd = aux_fd = 0
+    if jobdir is not None:
+        for fd in fds1 - fds0:
+            try:
+                target = os.readlink("/proc/self/fd/" + fd)
+            except OSError:
+                continue
+            if target == path:
+                main_fd += 1
+            elif target.startswith(jobdir + os.sep):
+                aux_fd += 1
+    fd_leak = (len(fds1) > len(fds0) and not closed) or (by_path and main_fd > 0)
+    aux_open = max(sum(1 for fo in aux_opened if not fo.closed), aux_fd)
     # now drop everything
-    for fo in opened:
+    for fo in opened + aux_opened + ([caller_fo] if caller_fo is not None else []):
         try:
             fo.close()
         except BaseException:
             pass
     del result
-    if path:
-        try:
-            os.remove(path)
-        except OSError:
-            pass
+    if jobdir:
+        shutil.rmtree(jobdir, ignore_errors=True)
     return {"entry": entry, "bypath": bool(by_path), "opened": len(opened) > 0, "closed": bool(closed),
             "outcome": outcome, "slow": outcome == "timeout" or elapsed > bound, "fd_leak": bool(fd_leak),
-            "exc": exc_name, "ms": int(elapsed * 1000)}
+            "exc": exc_name, "ms": int(elapsed * 1000), "nbytes": nbytes, "mem_allow_kib": int(allow_kib),
+            "mem_attempts": mem_attempts, "mem_msg": mem_msg, "aux_open": int(aux_open)}
 
 
 def worker(chunk_path):
     """Subprocess entry: read a chunk description, run the loads, write results next to it."""
-    resource.setrlimit(resource.RLIMIT_AS, (4 << 30, 4 << 30))
+    resource.setrlimit(resource.RLIMIT_AS, (HARD_AS, HARD_AS))
     tm = import_trimesh()
     import logging
     logging.disable(logging.CRITICAL)
+    install_memory_monitor()
+    # everything imported so far is permanent: the per-job gc.collect() then only walks what a load created
+    gc.collect()
+    gc.freeze()
     with open(chunk_path, "rb") as f:
         chunk = json.loads(f.read())
     tmpdir = os.path.dirname(chunk_path)
@@ -332,7 +459,7 @@ def worker(chunk_path):
         with open(chunk_path + ".cur", "w") as f:
             f.write(str(k))
         try:
-            r = load_once(tm, job["entry"], job["bypath"], job["ftype"], data, tmpdir, k)
+            r = load_once(tm, job, data, tmpdir, k)
         except Exception as e:   # an error of the harness itself, not of the loader
             with open(chunk_path + ".err", "w") as f:
                 f.write("%s: %s" % (type(e).__name__, e))
@@ -394,7 +521,9 @@ def run_jobs(jobs, name):
                     pass
                 bad = c[cur]
                 results.append({"id": bad["id"], "entry": bad["entry"], "bypath": bad["bypath"], "opened": bad["bypath"], "closed": True,
-                                "outcome": "fatal", "slow": False, "fd_leak": False, "exc": "interpreter_exit_%s" % rc, "ms": 0})
+                                "outcome": "fatal", "slow": False, "fd_leak": False, "exc": "interpreter_exit_%s" % rc, "ms": 0,
+                                "nbytes": len(bad["hex"]) // 2, "mem_allow_kib": (MEM_BASE + MEM_PER_BYTE * (len(bad["hex"]) // 2)) // 1024,
+                                "mem_attempts": 0, "mem_msg": "", "aux_open": 0})
                 rest = c[:cur] + c[cur + 1:]
                 if rest:
                     np_ = p + ".r"
@@ -423,12 +552,26 @@ def main(argv):
         cov["tlc_runs"].append({"run": name, "distinct": r.distinct, "generated": r.generated, "wall_s": round(r.wall, 1)})
 
     d = tlc.prepare("c20/mc")
-    r = tlc.must(tlc.run(d, "Loader", LIFE_CFG.format(closes="TRUE"), timeout=1500), "lifecycle")
-    note("life-cycle: HandleClosedAtEnd, OutcomeOrdinary, Terminates (fair)", r)
-    rr = tlc.run(d, "Loader", LIFE_CFG.format(closes="FALSE"), timeout=1500)
+    r = tlc.must(tlc.run(d, "Loader", LIFE_CFG.format(closes="TRUE", lc="exact"), timeout=1500), "lifecycle")
+    note("life-cycle: HandleClosedAtEnd, OutcomeOrdinary, MemoryProportional, Terminates (fair)", r)
+    rr = tlc.run(d, "Loader", LIFE_CFG.format(closes="FALSE", lc="exact"), timeout=1500)
     if rr.violated != "HandleClosedAtEnd":
         raise MachineryError("spec self-test: an entry point without finally was not reported")
-    cov["spec_selftest"] = "entry point without finally -> HandleClosedAtEnd violated, as expected"
+    for lc in ("wrapping", "none"):
+        rr = tlc.run(d, "Loader", LIFE_CFG.format(closes="TRUE", lc=lc), timeout=1500)
+        if rr.violated != "MemoryProportional":
+            raise MachineryError("spec self-test: a %s length check was not reported (%s)" % (lc, rr.violated))
+    cov["spec_selftest"] = ("entry point without finally -> HandleClosedAtEnd violated; length check in wrapping arithmetic / "
+                            "absent -> MemoryProportional violated, as expected")
+    r = tlc.must(tlc.run(d, "Loader", CLASS_CFG, workers=1, timeout=900), "value classes")
+    note("value classes of a numeric field", r)
+    if len(r.printed) != 1:
+        raise MachineryError("value classes not emitted")
+    ints, reals, structs = (sorted(r.printed[0][k], key=lambda c: json.dumps(c, sort_keys=True)) for k in ("ints", "reals", "structs"))
+    if any(c not in ints for c in F.ESSENTIAL):
+        raise MachineryError("a class the quick tier always applies is not among the classes TLC emitted")
+    if len(ints) < 60 or len(reals) < 8 or len(structs) < 8:
+        raise MachineryError("too few value classes: %d %d %d" % (len(ints), len(reals), len(structs)))
     mf = 2
     r = tlc.must(tlc.run(d, "Loader", FAULT_CFG.format(nf=NFIELDS, mf=mf), workers=1, timeout=900), "faults")
     note(f"fault sequences <= {mf} over {NFIELDS} fields", r)
@@ -439,21 +582,41 @@ def main(argv):
     sd = seeds(tm)
     if len(sd) < 10:
         raise MachineryError("too few seed formats: %s" % sorted(sd))
+    extra = F.extra_seeds(tm, sd)
+    if len(extra) < 6:
+        raise MachineryError("too few container / flavour seeds: %s" % sorted(extra))
+    sd.update(extra)
+    quick = tier == "quick"
     rs = np.random.RandomState(seed() + 20)
     others = list(sd.values())
     jobs = []
     desc = []
     path_types = {"dxf", "svg"}
 
-    def add(key, data, how):
+    fam_count = {}
+
+    def add(key, data, how, fam="bytes", files=None, mode="", entry=None, bypath=None):
         ft = file_type_of(key)
         entries = ["load_path", "load"] if ft in path_types else ["load", "load_mesh", "load_scene"]
-        e = entries[len(jobs) % len(entries)]
-        bp = (len(jobs) // 3) % 2 == 0
-        if ft in ("zip",) and e == "load_mesh":
+        e = entry or entries[len(jobs) % len(entries)]
+        bp = ((len(jobs) // 3) % 2 == 0) if bypath is None else bypath
+        if ft in ("zip", "tar.gz", "tar.bz2", "bz2") and e == "load_mesh":
             e = "load"
-        jobs.append({"id": len(jobs), "entry": e, "bypath": bp, "ftype": ft, "hex": data.hex()})
-        desc.append({"seed": key, "how": how, "entry": e, "bypath": bp, "bytes": len(data)})
+        if mode in ("pathlib", "upper"):
+            bp = True
+        elif mode in ("offset", "realfile"):
+            bp = False
+        job = {"id": len(jobs), "entry": e, "bypath": bp, "ftype": ft, "hex": data.hex()}
+        if files:
+            job["files"] = {k: v.hex() for k, v in files.items()}
+        if mode:
+            job["mode"] = mode
+        jobs.append(job)
+        dsc = {"seed": key, "how": how, "entry": e, "bypath": bp, "bytes": len(data), "family": fam}
+        if mode:
+            dsc["mode"] = mode
+        desc.append(dsc)
+        fam_count[fam] = fam_count.get(fam, 0) + 1
 
     stride_f = 9 if tier == "quick" else 1
     for si, (key, data) in enumerate(sorted(sd.items())):
@@ -493,15 +656,77 @@ def main(argv):
         # arbitrary byte strings under this loader
         for _ in range(10 if tier == "quick" else 60):
             add(key, bytes(rs.randint(0, 256, size=rs.randint(0, 300)).tolist()), "random_bytes")
+    n_base = len(jobs)
+    # ---- numeric tokens of the parsed payload under the value classes of Loader.tla (containers re-framed)
+    for key, data in sorted(sd.items()):
+        for how, mutated in F.token_family(key, data, ints, reals, rs, quick):
+            add(key, mutated, how, fam="numeric_token")
+    # ---- fixed-width binary count / length fields: every bit flip, every class modulo the width
+    for key, data in sorted(sd.items()):
+        flds = F.binary_fields(key, data)
+        for how, mutated in F.field_family(data, flds, ints, rs, quick and file_type_of(key) != "stl"):
+            add(key, mutated, how, fam="binary_field")
+    nvar = 0
+    for vkey, vdata in F.ply_variants(rs, quick):
+        nvar += 1
+        for _ in range(2):
+            add(vkey, vdata, "valid", fam="ply_flavour")
+        flds = F.ply_list_fields(vdata)
+        flds = [flds[0], flds[-1]] if quick else flds
+        for how, mutated in F.field_family(vdata, flds, ints, rs, quick, bits=True):
+            add(vkey, mutated, how, fam="ply_flavour")
+        for how, mutated in F.token_family(vkey, vdata, ints, reals, rs, True):
+            add(vkey, mutated, how, fam="ply_flavour")
+    # ---- structure of the glTF JSON tree
+    for key, data in sorted(sd.items()):
+        for how, mutated in F.json_family(key, data, structs, ints, rs, quick):
+            add(key, mutated, how, fam="json_structure")
+    # ---- assets of several files, by path: every file below the asset directory must be closed again
+    bundles = F.bundles(tm)
+    if len(bundles) < 2:
+        raise MachineryError("multi-file assets could not be built: %s" % sorted(bundles))
+    for bname, (bft, main_bytes, aux) in sorted(bundles.items()):
+        for how, m2, a2 in F.bundle_mutations(bft, main_bytes, aux, rs, 6 if quick else 60):
+            for e in (("load", "load_scene") if quick else ("load", "load_mesh", "load_scene")):
+                add(bft + "@" + bname, m2, how, fam="sidecar", files=a2, entry=e, bypath=True)
+    # ---- other valid files than the one small seed geometry: scaled, translated, larger, degenerate
+    for gft, gdata, how in F.geometry_variants(tm):
+        for e in (("load_path", "load") if gft in path_types else ("load", "load_mesh", "load_scene")):
+            add(gft + "@geometry", gdata, dict(how, valid_export=True), fam="valid_geometry", entry=e)
+    # ---- the same inputs through the other ways of calling a loader
+    pool = [i for i in range(len(jobs)) if "files" not in jobs[i]]
+    per_mode = 60 if quick else 1200
+    for mode in F.MODES:
+        cand = pool
+        if mode == "kw:force_mesh" or mode == "kw:force_scene":
+            cand = [i for i in pool if jobs[i]["entry"] == "load"]
+        pick = rs.choice(len(cand), size=min(per_mode, len(cand)), replace=False)
+        for i in pick:
+            j, dsc = jobs[cand[i]], desc[cand[i]]
+            add(dsc["seed"], bytes.fromhex(j["hex"]), dsc["how"], fam="call_variant", mode=mode, entry=j["entry"], bypath=j["bypath"])
+    # no family may come out (nearly) empty
+    need = {"numeric_token": 2000, "binary_field": 300, "ply_flavour": 300, "json_structure": 300, "sidecar": 150, "call_variant": 500, "valid_geometry": 150}
+    for fam, lo in need.items():
+        if fam_count.get(fam, 0) < lo:
+            raise MachineryError("family %s nearly empty: %d records" % (fam, fam_count.get(fam, 0)))
     t0 = time.time()
     results = run_jobs(jobs, "run")
     if len(results) != len(jobs):
         raise MachineryError("lost results: %d of %d" % (len(results), len(jobs)))
     results.sort(key=lambda r: r["id"])
-    traces = [{k: r[k] for k in ("id", "entry", "bypath", "opened", "closed", "outcome", "slow", "fd_leak")} for r in results]
+    traces = [{k: r[k] for k in ("id", "entry", "bypath", "opened", "closed", "outcome", "slow", "fd_leak",
+                                 "nbytes", "mem_allow_kib", "mem_attempts", "aux_open", "ms")} for r in results]
     rejects, st, wall = tlc.validate_batches("c20", "LoaderTrace", traces, TRACE_CFG)
     states += st
     trans += st
+    if any(cl.startswith("machinery_") for cl in rejects.values()):
+        raise MachineryError("memory allowance could not be applied: %s" % [results[c] for c, cl in rejects.items() if cl.startswith("machinery_")][:2])
+    # the valid files must load: a seed that does not is not a seed (guards the hand-made flavours and bundles)
+    bad_valid = [desc[i]["seed"] for i, r_ in enumerate(results) if desc[i]["how"] in ("valid", {"bundle": "valid"})
+                 and not desc[i].get("mode") and r_["outcome"] != "return" and desc[i]["seed"] != "gltf"]
+    cov["valid_seeds_not_returning"] = sorted(set(bad_valid))
+    if len(set(bad_valid)) > 3:
+        raise MachineryError("valid seed files do not load: %s" % sorted(set(bad_valid)))
     # a timeout is retried once in isolation before it counts
     retry = [jobs[cid] for cid, cl in rejects.items() if cl == "time_bound_exceeded"]
     if retry:
@@ -510,7 +735,8 @@ def main(argv):
             if rejects[cid] == "time_bound_exceeded" and cid in again and not again[cid]["slow"]:
                 del rejects[cid]
     for cid, clause in sorted(rejects.items()):
-        V.violation(clause, dict(desc[cid], outcome=results[cid]["outcome"], exc=results[cid]["exc"], ms=results[cid]["ms"]))
+        V.violation(clause, dict(desc[cid], outcome=results[cid]["outcome"], exc=results[cid]["exc"], ms=results[cid]["ms"],
+                                 mem=results[cid].get("mem_msg", ""), aux_open=results[cid].get("aux_open", 0)))
     hist = {}
     changed = set()
     for r_, dsc in zip(results, desc):
@@ -518,7 +744,18 @@ def main(argv):
         hist[k] = hist.get(k, 0) + 1
         if dsc["how"] != "valid":
             changed.add((dsc["seed"], json.dumps(dsc["how"], sort_keys=True)))
-    cov.update({"evaluations": len(jobs), "distinct_nontrivial": len(changed),
+    fam_out = {}
+    for r_, dsc in zip(results, desc):
+        fo = fam_out.setdefault(dsc["family"], {})
+        fo[r_["outcome"]] = fo.get(r_["outcome"], 0) + 1
+    # a family whose every record dies in the container check never reached a parser
+    for fam in ("numeric_token", "json_structure", "binary_field", "ply_flavour", "sidecar", "valid_geometry"):
+        if fam_out.get(fam, {}).get("return", 0) < 20:
+            raise MachineryError("family %s: almost no mutated input still loads (%s) - the mutations do not reach the parsers" % (fam, fam_out.get(fam)))
+    cov.update({"evaluations": len(jobs), "distinct_nontrivial": len(changed), "families": fam_count, "family_outcomes": fam_out,
+                "base_records": n_base, "value_classes": {"int": len(ints), "real": len(reals), "struct": len(structs)},
+                "ply_flavours": nvar, "bundles": sorted(bundles), "call_modes": list(F.MODES),
+                "mem_attempt_records": sum(1 for r_ in results if r_["mem_attempts"] > 0 or r_["outcome"] == "memory"),
                 "rule": "every TLC fault sequence (<=2 faults over a 6-field layout), every truncation point (strided), seeded byte/word corruptions and random byte strings, per exportable format; distinct = distinct (seed format, mutation) pairs that differ from the valid file",
                 "states": states, "transitions": trans, "traces_validated_against_impl": len(traces),
                 "formats": sorted(sd), "fault_sequences_from_tlc": len(faultseqs), "outcomes": dict(sorted(hist.items(), key=lambda kv: -kv[1])[:25]),
@@ -526,6 +763,7 @@ def main(argv):
                 "samples": [desc[len(desc) // 3], desc[len(desc) // 2], desc[-1]]})
     return V.finish("fault_enumeration", cov, assumptions=[
         "time bound 10 s + 1 ms per byte of CPU time (wall-clock backstop 30x); address space limited to 4 GB per loading process",
+        "memory in proportion to the input is read as: no request beyond 512 MiB + 1 KiB per input byte (LoaderTrace.tla); a MemoryError raised anywhere during a load under that allowance counts, also when the loader swallows it; decompression bombs (zip / bz2 / png payloads that legitimately inflate) are not enumerated",
         "formats limited to those with an exporter in this environment (seed files are fresh exports of small geometry)",
     ])
 
